@@ -438,6 +438,9 @@ func runSrv(t *testing.T, sc *SrvScenario, keep bool, res *core.Result, hooks *s
 					}
 					// the outcome is the server's own success counter
 					rec.OK = rst.get("DNS_db.reload") > okBefore
+					if o.Full && fb.VerifDBPath() != rec.Path {
+						rec.OK = false // the success counted was somebody else's (a periodic partial reload)
+					}
 					switch {
 					case rec.OK:
 					case rst.get("DNS_db.ErrReloadTimeout") > toBefore:
